@@ -161,9 +161,10 @@ def shorten(x, lim=400):
 
 
 def _worker(args):
-    modname, tier, seed, shard, nshards, budget_s = args
+    modname, tier, seed, shard, nshards, budget_s = args[:6]
+    build_override = args[6] if len(args) > 6 else None
     mod = importlib.import_module(modname)
-    ctx = Ctx(mod.ID, tier, seed, shard, nshards, build=getattr(mod, "BUILD", "chk"))
+    ctx = Ctx(mod.ID, tier, seed, shard, nshards, build=build_override or getattr(mod, "BUILD", "chk"))
     ctx.deadline = time.time() + budget_s
     try:
         for case in mod.cases(ctx):
@@ -180,6 +181,19 @@ def _worker(args):
     finally:
         ctx.close()
     return ctx.result()
+
+
+def run_build_stage(modname, tier, seed, build, shards, nshards, budget_s):
+    """Re-run part of a module's workload (the given shard numbers of an nshards-way split, fresh seed) against another driver build.
+    Violation keys carry the build name, so a symptom that exists only in that build is distinguishable."""
+    drvmod.build(build)
+    jobs = [(modname, tier, seed, s, nshards, budget_s, build) for s in shards]
+    with ProcessPoolExecutor(max_workers=NCPU) as ex:
+        out = list(ex.map(_worker, jobs))
+    for o in out:
+        o["hits"] = {"%s:%s" % (build, k): v for k, v in o["hits"].items()}
+        o["samples"] = []
+    return out
 
 
 def load_known():
